@@ -80,11 +80,18 @@ def execute(cases, fuel=8000, timeout_ms=5000, model=True):
         c.impl, c.model = a, b
     return {'impl_s': round(t1 - t0, 1), 'model_s': round(t2 - t1, 1)}
 
+DRIVER_TIMEOUT = 'CRASH:rc=-9:' + hx('driver timeout')
+
+def model_unanswered(cases):
+    """cases the model driver did not answer within the harness's own time limit (a limit of the
+    machinery — the model is a function of the input alone —, so neither agreement nor disagreement)"""
+    return [c for c in cases if c.model is not None and c.model.startswith(DRIVER_TIMEOUT)]
+
 def disagreements(cases):
     """cases on which implementation and model differ on the compared fields"""
     out = []
     for c in cases:
-        if c.model is None:
+        if c.model is None or c.model.startswith(DRIVER_TIMEOUT):
             continue
         if not same(c.impl, c.model, c.keys):
             if platform_sensitive(c.src) and not c.impl.startswith(('PANIC', 'CRASH', 'TIMEOUT')) and not c.model.startswith('ABN') and approx_same(c.impl, c.model, c.keys):
